@@ -368,6 +368,11 @@ func facts(which string) string {
 func TestEngine(t *testing.T) {
 	tr := hx.Open()
 	defer tr.Close()
+	defer func() {
+		if amtoolBin != "" {
+			os.RemoveAll(filepath.Dir(amtoolBin))
+		}
+	}()
 	if s := hx.Script(); s != nil {
 		var cur []string
 		flush := func() {
